@@ -861,6 +861,32 @@ func (rw *rewriter) rewriteRangeMap(n *ast.RangeStmt) ast.Stmt {
 		if !isBlank(n.Value) {
 			head = append(head, &ast.AssignStmt{Lhs: []ast.Expr{n.Value}, Tok: token.ASSIGN, Rhs: []ast.Expr{ast.NewIdent(valName)}})
 		}
+	} else if rw.sharedLoopVar && !rw.labeled[n] && (!isBlank(n.Key) || !isBlank(n.Value)) {
+		// `for k, v := range m` in a module before go 1.22: k and v are one pair of
+		// variables for the whole loop. They are declared in front of the loop (typed
+		// zero values from vrt.ZeroKV) and assigned in every iteration.
+		kv := []ast.Expr{ast.NewIdent("_"), ast.NewIdent("_")}
+		if !isBlank(n.Key) {
+			kv[0] = n.Key
+		}
+		if !isBlank(n.Value) {
+			kv[1] = n.Value
+		}
+		pre = append(pre, &ast.AssignStmt{Lhs: kv, Tok: token.DEFINE, Rhs: []ast.Expr{&ast.CallExpr{Fun: rw.vrt("ZeroKV"), Args: []ast.Expr{mExpr}}}})
+		valLhs := ast.Expr(ast.NewIdent("_"))
+		if !isBlank(n.Value) {
+			valLhs = ast.NewIdent(n.Value.(*ast.Ident).Name)
+		}
+		head = append(head,
+			&ast.DeclStmt{Decl: &ast.GenDecl{Tok: token.VAR, Specs: []ast.Spec{&ast.ValueSpec{Names: []*ast.Ident{ast.NewIdent(okName)}, Type: ast.NewIdent("bool")}}}},
+			&ast.AssignStmt{Lhs: []ast.Expr{valLhs, ast.NewIdent(okName)}, Tok: token.ASSIGN,
+				Rhs: []ast.Expr{&ast.IndexExpr{X: operand(mExpr), Index: ast.NewIdent(keyName)}}},
+			&ast.IfStmt{Cond: &ast.UnaryExpr{Op: token.NOT, X: ast.NewIdent(okName)},
+				Body: &ast.BlockStmt{List: []ast.Stmt{&ast.BranchStmt{Tok: token.CONTINUE}}}},
+		)
+		if !isBlank(n.Key) {
+			head = append(head, &ast.AssignStmt{Lhs: []ast.Expr{ast.NewIdent(n.Key.(*ast.Ident).Name)}, Tok: token.ASSIGN, Rhs: []ast.Expr{ast.NewIdent(keyName)}})
+		}
 	} else {
 		valLhs := ast.Expr(ast.NewIdent("_"))
 		if !isBlank(n.Value) {
